@@ -71,6 +71,7 @@ type docs struct {
 	fail     string
 	failKey  string
 	rejected bool
+	rd       sceneDesc
 }
 
 func (x *docs) setFail(key, msg string) {
@@ -82,7 +83,8 @@ func (x *docs) setFail(key, msg string) {
 // observe writes the scene with both writers and reads the documents back.
 func observe(d sceneDesc) *docs {
 	b := build(d)
-	x := &docs{sc: coqScene(d, b), key: descKey(d), live: len(liveModels(d)) > 0}
+	rd := resolveDesc(d) // the by-value scene: what the model and the oracles judge against
+	x := &docs{sc: coqScene(rd, b), key: descKey(d), live: len(liveModels(rd)) > 0, rd: rd}
 	x.glb = guarded(func(w *bytes.Buffer) error { return gltf.WriteBinary(b.scene, w) })
 	x.txt = guarded(func(w *bytes.Buffer) error { return gltf.WriteText(b.scene, w) })
 	if x.glb.crash != "" || x.txt.crash != "" {
@@ -135,10 +137,10 @@ func sceneCase(d sceneDesc) hx.Case {
 	}
 	big := len(x.pg) > coqPayloadMax || len(x.pt) > coqPayloadMax
 	// payload judged here as well (for big scenes this is the only payload oracle)
-	if msg := checkPayload(d, x.sg, x.pg); msg != "" {
+	if msg := checkPayload(x.rd, x.sg, x.pg); msg != "" {
 		x.setFail("gltf:payload", "GLB: "+msg)
 	}
-	if msg := checkPayload(d, x.st, x.pt); msg != "" {
+	if msg := checkPayload(x.rd, x.st, x.pt); msg != "" {
 		x.setFail("gltf:payload", ".gltf: "+msg)
 	}
 	if big && !bytes.Equal(x.pt, x.pg[:min(len(x.pt), len(x.pg))]) {
@@ -242,6 +244,33 @@ func main() {
 			run.Count("scene:rejected")
 		}
 		run.Count(fmt.Sprintf("scene:models=%d", len(d.Models)))
+		starts := map[[2]int]map[int]bool{}
+		for _, mo := range d.Models {
+			if mo.SameAs != nil {
+				run.Count("alias:same-model-value-twice")
+			}
+			if r := mo.InstRef; r != nil {
+				k := [2]int{r.Pool, r.Off}
+				if starts[k] == nil {
+					starts[k] = map[int]bool{}
+				}
+				starts[k][r.Len] = true
+			}
+		}
+		for _, ls := range starts {
+			if len(ls) > 1 {
+				run.Count("alias:instances-same-start-different-length")
+			}
+		}
+		if len(d.InstPool) > 0 {
+			run.Count("alias:instance-views")
+		}
+		if len(d.AttrPool) > 0 {
+			run.Count("alias:attribute-views")
+		}
+		if len(d.IdxPool) > 0 {
+			run.Count("alias:index-views")
+		}
 		if a, ok := alignCase(d); ok {
 			run.Add(a)
 		}
